@@ -11,12 +11,12 @@ META = {
   trusted=["heap metering by a counting global allocator, time by Instant"],
   timeout=dict(quick=600, thorough=7200)),
  "C06": dict(
-  extra_modules=["Tie"],
+  extra_modules=["C06Errors", "Tie"],
   rule="bounded-exhaustive: all buffers up to length L (quick 5, thorough 6) over {00,01,02,03,3F,40,80,C0,C1,'a'} at every start offset, plus random message-like buffers with label runs, pointer chains, self/forward/out-of-range pointers, reserved label types and names around the 255-byte limit; each (buffer, offset) is decoded by Name::parse (hook parse_name_at), by the Lean model and by the RFC 1035 reference decoder (spec.name); non-trivial = offset inside the buffer; distinct = distinct (request, output)",
   assumptions=STD, exhaustive=False, timeout=dict(quick=600, thorough=7200)),
  "C08": dict(
-  extra_modules=["Tie"],
-  rule="exhaustive: all 65536 flag words x 4 ids through Packet::parse, all eight peek functions on all 65536 words x 2 count tuples, all 128x128 flag-set pairs through set/remove/has, all 6 opcodes x 13 rcodes x 128 flag subsets through build_bytes_vec; every case compared with the model and with RFC 1035 4.1.1 positional arithmetic; every case is non-trivial; distinct = distinct (request, output)",
+  extra_modules=["C08Api", "Tie"],
+  rule="exhaustive: all 65536 flag words x 4 ids through Packet::parse, all eight peek functions on all 65536 words x 2 count tuples, all 128x128 flag-set pairs through set/remove/has, all 6 opcodes x 13 rcodes x 128 flag subsets through build_bytes_vec; new_query / new_reply for 7 ids and into_reply / set_id / to_cache_flush_record on 300 (thorough 3000) random packets; every case compared with the model and with RFC 1035 4.1.1 positional arithmetic; every case is non-trivial; distinct = distinct (request, output)",
   assumptions=STD, exhaustive=True, timeout=dict(quick=600, thorough=1200)),
  "C18": dict(
   extra_modules=["Tie"],
@@ -56,8 +56,8 @@ META = {
   rule="all 13 named rcodes x versions {0,1,3,127,255} x UDP sizes {0,512,1232,65535} x 3 (thorough 12) shapes (0..3 options of lengths 0,1,3,255,1000; 0..2 other additional records): build_bytes_vec compared with the model and checked clause by clause against RFC 6891 by an independent walker (exactly one OPT, root owner, TYPE 41, CLASS = size, TTL octets, option triples, ARCOUNT, header low nibble), then parsed back; plus independently encoded messages with the OPT record at every index of the additional section, in the library's TTL layout and in the RFC's, through Packet::parse; the known finding opt-ttl-byte-order covers exactly the TTL octet order",
   assumptions=STD, timeout=dict(quick=600, thorough=7200)),
  "C10": dict(
-  extra_modules=["Tie"],
-  rule="for each of the 39 typed variants other than OPT: 60 (thorough 2000) field tuples (boundary and random values, shared-suffix names, opaque tails of 0..1200 bytes); the library's serialisation compared byte for byte with an independent reference encoder written from the RFCs (harness) and with the Lean RFC schema encoder (spec.rdata), under the IANA code; the reference encoding parsed by the library and compared field by field; plus encodings breaking a structural rule (LOC version, SVCB key order, NSEC window order, inner length overruns) which must be rejected, and the ISDN-without-sub-address encoding of RFC 1183 (known finding)",
+  extra_modules=["C10Svcb", "Tie"],
+  rule="for each of the 39 typed variants other than OPT: 60 (thorough 2000) field tuples (boundary and random values, shared-suffix names, opaque tails of 0..1200 bytes); the library's serialisation compared byte for byte with an independent reference encoder written from the RFCs (harness) and with the Lean RFC schema encoder (spec.rdata), under the IANA code; the reference encoding parsed by the library and compared field by field; plus encodings breaking a structural rule (LOC version, SVCB key order, NSEC window order, inner length overruns) which must be rejected, and the ISDN-without-sub-address encoding of RFC 1183 (known finding); plus 400 (thorough 6000) SVCB/HTTPS records built through set_param and the typed helpers (mandatory, alpn, no-default-alpn, port, ipv4hint, ipv6hint) in random order with repeats and values at the 65535/65536 boundary, replayed by the model (svcb) and checked against an ordered map of RFC 9460 section 7 values kept by the harness",
   assumptions=STD, timeout=dict(quick=600, thorough=7200)),
  "C04": dict(
   rule="packets as C02 (700 quick / 6000 thorough): both vector-returning entry points walked by an independent RFC 1035 walker (counts = entries written incl. OPT once, no trailing bytes); then every writer configuration: Vec (empty / pre-filled), Cursor<Vec> at offsets 0/2/3/7 over empty, shorter and longer pre-filled storage, Cursor<&mut [u8]> and &mut [u8] of capacities {0,1,11,12,len-1,len,len+1,len+2,len/2} (every capacity 0..len+2 for every 16th packet) and at offsets 2/3/5, plain and compressed; result class, final storage and final position compared with the model and with the bytes of build_bytes_vec* spliced in; distinct = distinct (request, output)",
